@@ -49,9 +49,11 @@ def run(tier, seed, t0):
     total, writes, hs = baseline()
     rng = random.Random("c05-%d" % seed)
     scn = scenarios.crash_scenarios(total, writes, hs, tier, rng)
+    # missed heartbeats (real time, 1 s interval): the server goes silent with a call in flight
+    scn += scenarios.generate("hb_silence", 3 if tier == "quick" else 12, seed)
     files, summ = vlib.run_sessions(PROP, scn, tier, hang_ms=5000 if tier == "quick" else 20000)
     consumed, bad = vlib.validate_traces("ConnTrace", "ConnTrace.cfg", files, timeout=3000, xmx="4g")
-    v = vlib.Verdict(PROP, own_kinds=("crash-offset", "crash-write", "crash-step"))
+    v = vlib.Verdict(PROP, own_kinds=("crash-offset", "crash-write", "crash-step", "crash-hb-silence"))
     v.absorb(bad)
     kinds = Counter((s["kind"], s["fault"]) for s in scn)
     distinct = len({(s["kind"], s["fault"], s["at"]) for s in scn})
@@ -72,8 +74,9 @@ def run(tier, seed, t0):
                "io_thread_not_released": summ["io_not_released"], "stream_bytes": total, "client_writes": writes,
                "failed_check_labels": dict(Counter(b["label"] for b in bad))},
         assumptions=_sess.COMMON_ASSUMPTIONS + [
-            "faults during the opening handshake are C16's; missed-heartbeat detection (silence) is C17's (C17:cause checks "
-            "the MissedServerHeartbeats result); server-initiated close and client exceptions are C08's and C07's",
+            "faults during the opening handshake are C16's; heartbeat timing is C17's - here only that a silent server "
+            "(1 s heartbeat, call in flight, consumer waiting) releases everybody with MissedServerHeartbeats; "
+            "server-initiated close and client exceptions are C08's and C07's",
             "a request-without-reply (nowait) call racing the I/O thread's teardown may still return Ok; once a handle has "
             "seen an error every later call on it must fail"])
     return vlib.finish(PROP, v)
